@@ -4,7 +4,9 @@ import RxGen.Text
 (RxModel/PyText.lean: str = List Char, `s.split(c)` = `splitC c s`, indexing with negative indices and IndexError, slices,
 `x or y`), ARE the model's `lineFeed` / `lineFinish` / `lineFrame` (Framing.lean) — the functions `C15_line`, `C15_line_rechunk`
 and, through the csv and json loaders, C18 and C19 are about.  `LinkT_unframe_run`: driven chunk by chunk and completed, the
-generated closures emit exactly `lineRun`.
+generated closures emit exactly `lineRun`.  `LinkB_lp_next`: `on_next` of `length_prefix.unframe` (rxsci/framing/length_prefix.py) is
+`lpFeed`, for every prefix size ≥ 1 and both byte orders (`lp_loop`: the loop delivers the frames `lpParse` finds and stops where the
+carried-over bytes start).
 -/
 namespace Rx
 open TM
@@ -143,5 +145,100 @@ theorem LinkT_unframe_run (chunks : List (List Char)) (acc : List Char) (out : L
     simp only []
     rw [h2]
     simp [lineRun, lineRunG, lineFeed, List.append_assoc]
+
+/-! ## `length_prefix.unframe`: a `BytesIO` cursor and a `while` loop (fuel `bio_len + 1`: every continuing pass consumes at least
+`prefix_size ≥ 1` bytes) -/
+
+def runB {α} (m : BM α) (s : BSt) : Except Err α × BSt := (ExceptT.run m).run s
+
+theorem runB_bind {α β} (m : BM α) (f : α → BM β) (s : BSt) :
+    runB (m >>= f) s = match runB m s with
+      | (.ok a, s') => runB (f a) s'
+      | (.error e, s') => (.error e, s') := by
+  simp only [runB, ExceptT.run, bind, ExceptT.bind, ExceptT.mk, StateT.bind, StateT.run, ExceptT.bindCont]
+  cases h : m s with
+  | mk a s' => cases a <;> simp [pure, StateT.pure]
+
+theorem runB_pure {α} (a : α) (s : BSt) : runB (pure a : BM α) s = (.ok a, s) := rfl
+theorem runB_emit (v : List Nat) (s : BSt) : runB (BM.emit v) s = (.ok (), { s with out := s.out ++ [v] }) := rfl
+theorem runB_getVar (k : Nat) (s : BSt) : runB (BM.getVar k) s = (.ok (s.vars k), s) := rfl
+theorem runB_setVar (k : Nat) (v : List Nat) (s : BSt) :
+    runB (BM.setVar k v) s = (.ok (), { s with vars := fun j => if j = k then v else s.vars j }) := rfl
+
+/-- the `while` loop of `length_prefix.unframe.on_next` from offset `off` of the buffer `B` (cursor at `off`): it delivers the
+frames `lpParse` finds in `B.drop off` and stops at the offset where the carried-over bytes start -/
+theorem lp_loop (big : Bool) (p : Nat) (hp : 0 < p) (B : List Nat) :
+    ∀ (fuel off : Nat) (s : BSt), off ≤ B.length → B.length - off < fuel →
+      ∃ off' pos', runB (Gen.lp_unframe_loop1 p big B.length fuel off ⟨B, off⟩) s
+          = (.ok (off', ⟨B, pos'⟩), { s with out := s.out ++ (lpParse big p (B.drop off)).1 })
+        ∧ B.drop off' = (lpParse big p (B.drop off)).2 := by
+  intro fuel
+  induction fuel with
+  | zero => intro off s _ h; omega
+  | succ fuel ih =>
+    intro off s hoff hfuel
+    rw [Gen.lp_unframe_loop1]
+    rw [lpParse]
+    by_cases h1 : p ≤ B.length - off
+    · have c1 : (Int.ofNat B.length - Int.ofNat off) ≥ Int.ofNat p := by
+        simp only [Int.ofNat_eq_natCast]; omega
+      have hlen : (B.drop off).length = B.length - off := by simp
+      have hread : ((⟨B, off⟩ : BIO).read p).1 = (B.drop off).take p := rfl
+      have hpos : ((⟨B, off⟩ : BIO).read p).2 = ⟨B, off + p⟩ := by
+        simp [BIO.read, List.length_take, hlen, Nat.min_eq_left h1]
+      simp only [c1, if_true, hread, hpos, hlen, hp, h1, and_self, dite_true]
+      by_cases h2 : fromBytes big ((B.drop off).take p) ≤ B.length - off - p
+      · have c2 : ((Int.ofNat B.length - Int.ofNat off) - Int.ofNat p) ≥ Int.ofNat (fromBytes big ((B.drop off).take p)) := by
+          simp only [Int.ofNat_eq_natCast]; omega
+        generalize hsz : fromBytes big ((B.drop off).take p) = size at *
+        have hread2 : ((⟨B, off + p⟩ : BIO).read size).1 = ((B.drop off).drop p).take size := by
+          simp [BIO.read, List.drop_drop, Nat.add_comm]
+        have hpos2 : ((⟨B, off + p⟩ : BIO).read size).2 = ⟨B, off + (size + p)⟩ := by
+          have : ((B.drop (off + p)).take size).length = size := by
+            simp [List.length_take]; omega
+          simp [BIO.read, this]; omega
+        simp only [c2, if_true, h2, dite_true, runB_bind, runB_emit, hread2, hpos2]
+        obtain ⟨off', pos', h3, h4⟩ := ih (off + (size + p)) { s with out := s.out ++ [((B.drop off).drop p).take size] } (by omega) (by omega)
+        have hd : B.drop (off + (size + p)) = (B.drop off).drop (p + size) := by
+          simp [List.drop_drop]; congr 1; omega
+        rw [hd] at h3 h4
+        refine ⟨off', pos', ?_, h4⟩
+        rw [h3]
+        simp [List.append_assoc]
+      · have c2 : ¬ (((Int.ofNat B.length - Int.ofNat off) - Int.ofNat p) ≥ Int.ofNat (fromBytes big ((B.drop off).take p))) := by
+          simp only [Int.ofNat_eq_natCast]; omega
+        simp only [c2, if_false, h2, dite_false, runB_pure]
+        exact ⟨off, off + p, by simp, rfl⟩
+    · have c1 : ¬ ((Int.ofNat B.length - Int.ofNat off) ≥ Int.ofNat p) := by
+        simp only [Int.ofNat_eq_natCast]; omega
+      have hlen : (B.drop off).length = B.length - off := by simp
+      have : ¬ (0 < p ∧ p ≤ (B.drop off).length) := by rw [hlen]; omega
+      simp only [c1, if_false, this, dite_false, runB_pure]
+      exact ⟨off, off, by simp, rfl⟩
+
+
+theorem bio_writes (acc chunk : List Nat) : ((BIO.empty.write acc).write chunk).data = acc ++ chunk := by
+  simp [BIO.empty, BIO.write]
+
+/-- **`length_prefix.unframe.on_next`**, generated from rxsci/framing/length_prefix.py, is the model's `lpFeed`: the frames
+delivered for the chunk and the bytes carried over — for every prefix size ≥ 1 and both byte orders -/
+theorem LinkB_lp_next (big : Bool) (p : Nat) (hp : 0 < p) (acc chunk : List Nat) (out : List (List Nat)) (rest : Nat → List Nat)
+    (c : Bool) :
+    BM.run (Gen.lp_unframe_on_next p big chunk) { vars := fun j => if j = 0 then acc else rest j, out := out, completed := c }
+      = (.ok (), { vars := fun j => if j = 0 then (lpFeed big p acc chunk).2 else rest j, out := out ++ (lpFeed big p acc chunk).1,
+                   completed := c }) := by
+  have hrun : ∀ (m : BM Unit) s, BM.run m s = runB m s := fun _ _ => rfl
+  rw [hrun]
+  unfold Gen.lp_unframe_on_next
+  simp only [runB_bind, runB_getVar, if_true, BIO.len, BIO.seek, bio_writes]
+  obtain ⟨off', pos', h1, h2⟩ := lp_loop big p hp (acc ++ chunk) ((acc ++ chunk).length + 1) 0
+    { vars := fun j => if j = 0 then acc else rest j, out := out, completed := c } (by omega) (by omega)
+  rw [h1]
+  simp only [runB_setVar, BIO.readAll, lpFeed]
+  simp only [List.drop_zero] at h2 ⊢
+  rw [h2]
+  congr 2
+  funext j
+  by_cases hj : j = 0 <;> simp [hj]
 
 end Rx
